@@ -185,6 +185,9 @@ def insertion(ctx, p, k, v, keep_key, absent, present, full_none=None):
         return
     if p.hits:
         ctx.classes['hit'] += 1
+        for n0 in p.st.notes:
+            if n0[0] == 'contract':
+                ctx.classes['hit@' + n0[1]] += 1
         h = p.hits[-1]
         idx = h[2]
         ctx.req('SCAN', tag_eq(z, h[3], K), nm + ':hit', 'the matching comparison was not against the supplied key', p)
@@ -470,8 +473,10 @@ def h_entry(ctx, p):
     m = p.miss()
     ctx.req('SCAN', tag_eq(z, m, K) or m == ('<empty>',), nm + ':miss',
             'Vacant requires that every live key was compared with the supplied key', p)
-    ok = isent and names[v[2]] == 'Vacant' and v[3][0][0] == 'adt' and tag_eq(z, vtag(v[3][0][3][0]), K)
+    ok = isent and names[v[2]] == 'Vacant' and v[3][0][0] == 'adt' and v[3][0][3] and tag_eq(z, vtag(v[3][0][3][0]), K)
     ctx.req('OUT', ok, nm + ':miss-result', 'an absent key must give Vacant holding the supplied key', p)
+    if not z.entails_lt(p.ms.len0, p.ms.cap):
+        ctx.classes['miss-any-fill'] += 1
 
 
 def _vacant_insert(ctx, p, K, V, vprefix=None):
@@ -1942,7 +1947,9 @@ def required_classes(key):
     if key in LOOKUPS:
         return {'hit', 'miss'} if LOOKUPS[key][3] is not None else {'hit'}
     if key == (MAP, None, 'entry'):
-        return {'hit', 'miss'}
+        # 'miss-any-fill': some path returns Vacant without its path condition excluding a full map
+        # (entry() itself must not fail for want of space; only the later insert may)
+        return {'hit', 'miss', 'miss-any-fill'}
     if key[0] == ENT:
         return {'occupied', 'vacant'}
     if key[0] == OCC:
@@ -1997,6 +2004,9 @@ def unknown_override(body):
         return 'C14'       # a hand-written `ne`: its agreement with `!eq` is not established
     if k[0] in (MAP, SET) and k[1] == 'Clone' and k[2] != 'clone':
         return 'C15'       # a hand-written `clone_from`
+    if k[0] in (MAP, SET) and k[1] in ('Serialize', 'Deserialize') and (k[1], k[2]) not in (
+            ('Serialize', 'serialize'), ('Deserialize', 'deserialize')):
+        return 'C20'       # e.g. a hand-written `deserialize_in_place`
     return None
 
 
@@ -2109,6 +2119,8 @@ HANDLERS.update({
 
 
 CLASSES[(SET, 'Extend', 'extend')] = {'extended'}
+# insert_unchecked: "full map, key present" is inside the contract: replacing must return normally there too
+CLASSES[(MAP, None, 'insert_unchecked')] = {'hit', 'append', 'hit@no-append', 'hit@not-full'}
 CLASSES[(MAP, None, 'get_disjoint_unchecked_mut')] = {'returned'}
 for _k in list(HANDLERS):
     if _k[0] in (MAP, SET) and _k[1] in (None, 'Default'):
